@@ -1008,3 +1008,21 @@ def ctl_stale_retry_delay(ctx):
 
     return _edit_control(ctx, "stale_retry_delay", COND, "WorkflowConductor.get_next_tasks",
                          pred, repl, [SH.rule_G7], what="retry delay carried over to the next offer")
+
+
+def ctl_shared_transition_ctx(ctx):
+    """the transitions of a task are finalised against one shared context object."""
+    import ast
+    from sa import shape as SH
+
+    def pred(n):
+        return isinstance(n, ast.Call) and isinstance(n.func, ast.Attribute) and \
+            n.func.attr == "finalize_context"
+
+    def repl(n):
+        n.args = [a.args[0] if isinstance(a, ast.Call) and isinstance(a.func, ast.Attribute)
+                  and a.func.attr == "deepcopy" and a.args else a for a in n.args]
+        return n
+
+    return _edit_control(ctx, "shared_transition_ctx", COND, "WorkflowConductor.update_task_state",
+                         pred, repl, [SH.rule_M3], what="finalize_context without a fresh copy")
